@@ -107,7 +107,7 @@ func (rn *c13Runner) report(seq []int, ai int, p int, want ref.Verdict, got bool
 		n := len(rn.res.Violations)
 		rn.res.ViolateInput(c13Paths[p]+"/"+sig, desc, rn.sp.Input(seq, ai, c13Paths[p]))
 		if len(rn.res.Violations) > n {
-			rn.res.Violations[n].Cost = len(seq) // the merged report keeps the shortest counterexample
+			rn.res.Violations[n].Cost = ref.Cost(seq) // the merged report keeps the shortest, simplest counterexample
 		}
 	}
 }
